@@ -35,13 +35,13 @@ TabOf(vs, sel) ==
   LET av == AllVals(Len(vs))
       idx == SelectSeq([i \in 1..Len(av) |-> i], LAMBDA i : sel[i] >= 0)
   IN Tab(vs, [r \in 1..Len(idx) |-> Row(av[idx[r]], sel[idx[r]])], 1)
-Sels(vs) == [1..Len(AllVals(Len(vs))) -> WSel]
-\* <<variables of the left table, variables of the right table, operations>>
+Sels(vs, ws) == [1..Len(AllVals(Len(vs))) -> ws]
+\* <<variables of the left table, variables of the right table, operations, weight choices>>
 ExhShapes ==
   IF IOEnv.EXH = "small"
-  THEN {<< <<1>>, <<1>>, {"and", "or"} >>, << <<1>>, <<2>>, {"and"} >>, << <<1, 2>>, <<2>>, {"and"} >>}
-  ELSE {<< <<1, 2>>, <<2, 3>>, {"and"} >>, << <<1, 2>>, <<2, 1>>, {"or"} >>, << <<1, 2>>, <<3>>, {"and"} >>,
-        << <<2>>, <<2, 1>>, {"and"} >>}
+  THEN {<< <<1>>, <<1>>, {"and", "or"}, WSel >>, << <<1>>, <<2>>, {"and"}, WSel >>, << <<1, 2>>, <<2>>, {"and"}, WSel >>}
+  ELSE {<< <<1, 2>>, <<2, 3>>, {"and"}, WSel >>, << <<1, 2>>, <<3>>, {"and"}, WSel >>, << <<2>>, <<2, 1>>, {"and"}, WSel >>,
+        << <<1, 2>>, <<2, 1>>, {"or"}, {-1, 0, 1} >>, << <<1, 2>>, <<1, 2>>, {"or"}, {-1, 0, 1} >>}
 Instr(op) == [op |-> op, k |-> 0, n |-> 1, d |-> 1, keep |-> <<>>]
 
 \* ------------------------------------------------------------------ machine
@@ -54,7 +54,7 @@ Init ==
           /\ src = Batch[iid].tabs /\ prog = Batch[iid].prog /\ top = Batch[iid].top
           /\ stack = <<>>
      ELSE /\ iid = 0
-          /\ \E sh \in ExhShapes : \E s1 \in Sels(sh[1]) : \E s2 \in Sels(sh[2]) :
+          /\ \E sh \in ExhShapes : \E s1 \in Sels(sh[1], sh[4]) : \E s2 \in Sels(sh[2], sh[4]) :
                \E op \in sh[3] :
                  LET t1 == TLCEval(TabOf(sh[1], s1))
                      t2 == TLCEval(TabOf(sh[2], s2)) IN
